@@ -8,6 +8,8 @@
 //   c07b <n> <count>   idle parked pool, pool.scheduleBulk(count, gen)            (central queue, bulk)
 //   c07h <n> <count>   as c07r, but a schedule() precedes it and the pool is left to park again (the claimAndWakeOne of that schedule
 //                      may leave a parked worker with its sleepMask bit clear, depending on which waiter the futex wake picks)
+//   c07x <n> <count>   as c07r but WITHOUT waiting for the pool to park first: the submission races with workers that are still on their
+//                      way into the futex (outside the premise of C07; documents the "observe no sleeper, then bump without wake" window)
 //   c07p <n>           idle parked pool, pool.schedulePlaced(f, ForceQueuingTag())  (claimAndWakeOne, THEN push to the steal ring)
 //   c09  <n> <pre>     idle parked pool; pre=1: first schedule() a task that stays busy until the shutdown's wakeAll is done;
 //                      then ~ThreadPool (stop all; wakeAll; join) on the controller thread
@@ -58,7 +60,7 @@ static void runCase(const std::string& mode, int n, int arg, std::vector<long> s
               "pool.enq.central", "pool.load.numThreads", "pool.load.numRings", "pool.inline", "pool.steal.push",
               "pool.drain.ring", "pool.drain.ring.done", "pool.drain.steal", "pool.drain.steal.done", "pool.drain.central.done"};
   auto pool = std::make_unique<dispenso::ThreadPool>(static_cast<size_t>(n));   // workers enrol (ids 0..n-1) and park at "start"
-  int ntasks = (mode == "c07r" || mode == "c07b" || mode == "c07h") ? arg : 1;
+  int ntasks = (mode == "c07r" || mode == "c07b" || mode == "c07h" || mode == "c07x") ? arg : 1;
   std::vector<std::atomic<int>> started(static_cast<size_t>(ntasks));
   for (auto& s : started) s.store(0);
   std::vector<int> startedAtQuiescence(static_cast<size_t>(ntasks), 0);
@@ -92,7 +94,7 @@ static void runCase(const std::string& mode, int n, int arg, std::vector<long> s
     _exit(0);
   };
   S.spawn([&]() {
-    S.waitQuiescent();                 // every worker has spun down and is parked in FUTEX_WAIT
+    if (mode != "c07x") S.waitQuiescent();   // every worker has spun down and is parked in FUTEX_WAIT
     long t0 = S.timeoutSteps;
     if (mode == "c07h") {
       std::atomic<int> first{0};
@@ -100,7 +102,7 @@ static void runCase(const std::string& mode, int n, int arg, std::vector<long> s
       S.waitQuiescent();               // the woken worker ran it and parked again
       t0 = S.timeoutSteps;
     }
-    if (mode == "c07r" || mode == "c07h") {
+    if (mode == "c07r" || mode == "c07h" || mode == "c07x") {
       static dispenso::TaskSet* ts = nullptr;
       ts = new dispenso::TaskSet(*pool);
       ts->scheduleBulk(static_cast<size_t>(ntasks), [&](size_t j) { return [&, j]() { started[j].store(1); }; });
